@@ -156,6 +156,10 @@ func (n *DestinationAckerNode) worker(
 					handleError(msg, cerrors.Errorf("error while fetching acks: %w", err))
 					return
 				}
+				if len(acks) == 0 {
+					handleError(msg, cerrors.New("destination returned no acks"))
+					return
+				}
 			}
 
 			ack := acks[0]
